@@ -26,7 +26,7 @@ From Coq Require Import ZArith List.
 From WebP Require Import Gen.Tables Gen.Kernels Lib.ZBits Spec.VP8L Proofs.VP8L_kernels.
 From WebP Require Lib.Res Lib.Arr Model.LosslessLib Model.BitReader Model.Huffman Model.Lossless
   Proofs.Lossless_BitReader Proofs.Lossless_HuffmanSafe Proofs.Lossless_HuffmanSimple Proofs.Lossless_CopyWithin
-  Proofs.Lossless_HuffmanRead Spec.PrefixCode.
+  Proofs.Lossless_HuffmanRead Proofs.Lossless_HuffmanComplete Spec.PrefixCode.
 Import ListNotations.
 Open Scope Z_scope.
 
@@ -72,7 +72,7 @@ Proof. split; vm_compute; congruence. Qed.
 (* ---------------- Rust-mirroring model: bit reader, simple codes, backward-reference copy ---------------- *)
 Module M.
   Import Model.LosslessLib Model.BitReader Model.Huffman Model.Lossless Proofs.Lossless_BitReader
-    Proofs.Lossless_HuffmanSafe Proofs.Lossless_HuffmanSimple Proofs.Lossless_CopyWithin Proofs.Lossless_HuffmanRead.
+    Proofs.Lossless_HuffmanSafe Proofs.Lossless_HuffmanSimple Proofs.Lossless_CopyWithin Proofs.Lossless_HuffmanRead Proofs.Lossless_HuffmanComplete.
 
   (* [R s r]: reader state r (64-bit reservoir + unread bytes) represents the unread bit stream s (an integer, LSB first) *)
   Theorem bitreader_initial : forall d sch, Forall byte d -> R (V d) (init d sch).
@@ -98,6 +98,12 @@ Module M.
     exists r', read_symbol t r = Res.Ok (Z.of_nat sym, r') /\ R (Z.shiftr s (nth sym lens 0)) r' /\
                nbits r' = nbits r - nth sym lens 0 /\ data r' = data r.
   Proof. exact read_symbol_spec. Qed.
+
+  (* a valid code description is never rejected: every length vector whose Kraft sum is exactly 1 (the specification's condition
+     for a complete code) is accepted by build_implicit *)
+  Theorem normal_code_accepted : forall lens, lens_ok lens -> Z.of_nat (length lens) <= 5957 -> 2 <= nz lens ->
+    Spec.PrefixCode.kraft lens 15 = 2 ^ 15 -> exists t, build_implicit lens = Res.Ok t.
+  Proof. exact build_implicit_complete. Qed.
 
   Theorem normal_code_complete : forall lens t s,
     lens_ok lens -> Z.of_nat (length lens) <= 5957 -> 2 <= nz lens -> build_implicit lens = Res.Ok t -> 0 <= s ->
